@@ -23,3 +23,34 @@ Theorem C02_others_kept :
     In (d_str (snd p)) (selected h).
 Proof. exact selected_keeps. Qed.
 Print Assumptions C02_others_kept.
+
+(* End to end (unbound tokens): the holder receives a token whose JWT part carries the payload of a
+   conformant token t together with any duplicate-free list L of decodable disclosures of it (all of them, or
+   fewer), calls presentation(), any sequence rs of redact() calls, and build(); the verifier, given the
+   built string, accepts and returns the issuer's header and the projection of t determined by the selected
+   disclosures - `selected` being exactly the disclosures whose reported path is neither a redacted
+   disclosable path nor below one (C02_others_kept and the C06 theorems), each reported path being the position of its
+   hidden node (T2o.restore_full_ok_paths). *)
+Require Import SDJ.ATree SDJ.T2c SDJ.T2h SDJ.T2m SDJ.C03Proofs SDJ.C02Proofs.
+Theorem C02_present_redact_build_verify :
+  forall (O : oracles) (H : string -> string) (enc : list json -> string),
+    (forall x y, H x = H y -> x = y) ->
+    (forall ps, o_dec O (enc ps) = DJson (JArr ps)) ->
+    forall t : atree, wf H enc t -> NoDup (alldigs H enc t) -> NoDup (hdigs H enc t) -> aheight t <= 129 ->
+    forall token jwt L ds s1 cseg s3 hdr0 a alg (rs : list string) (E : build_env) kbpol,
+      sd_jwt_parts token = (jwt, L, None) -> jwt_parts_m jwt = Val (s1, cseg, s3) ->
+      o_claims O cseg = Ok (blind H enc t) -> o_jwt O jwt = Val (hdr0, blind H enc t) ->
+      jget "_sd_alg" (blind H enc t) = JStr a -> parse_halg a = Some alg -> o_hash O alg = H ->
+      jhas "cnf" (blind H enc t) = false ->
+      NoDup L -> (forall s, In s L -> In (H s) (alldigs H enc t) -> In (H s) (hdigs H enc t)) ->
+      decode_all H (o_dec O) L = Ok ds ->
+      Forall (fun x => contains tilde x = false) (jwt :: L) ->
+      exists h0, holder_presentation O token = Val h0 /\
+        let h := redact_all h0 rs in
+        h_redacted h = rs /\
+        holder_build O E h = Val (presentation_prefix jwt (selected h)) /\
+        (forall s, In s (selected h) -> In s L) /\
+        verifier_verify O (presentation_prefix jwt (selected h)) kbpol =
+          Val (hdr0, drop_alg (proj H enc (ownS H (selected h)) t)).
+Proof. exact present_redact_build_verify. Qed.
+Print Assumptions C02_present_redact_build_verify.
